@@ -5,6 +5,7 @@ INVARIANT DepthBounded
 CONSTRAINT Emit
 CONSTANTS
  MaxSize = 3
- MaxCalls = 2
+ MaxCalls = 3
  Reps = 12
  Budget = 120
+ PrefixLen = 1
